@@ -76,6 +76,15 @@ func CheckPanics(run *core.Run, prog *load.Program) {
 					s := add("loop", "for-without-condition", x)
 					s.text = "for-without-condition"
 					s.ok, s.reason = numberingLoop(prog, info, fd, x)
+				} else {
+					s := add("loop", "for "+types.ExprString(x.Cond), x)
+					s.ok, s.reason = bd.countingLoop(x)
+					if !s.ok {
+						s.ok, s.reason = numberingLoop(prog, info, fd, x)
+					}
+					if !s.ok {
+						s.reason = "the loop is no counting loop (a local counter stepped towards a limit that stands still) and no other measure is visible"
+					}
 				}
 				if x.Init != nil {
 					walk(x.Init, fname, loops, false)
